@@ -117,9 +117,17 @@ def gen_instr(rnd):
         name = rnd.choice(['lui', 'auipc'])
         ops = [('r', creg(rnd)), ('i', rnd.choice([0, 1, 31, 32, -1, -32, -33, 0xfffff, 0xfffe0, 0xfffdf, 0x7ffff, 0x80000,
                                                  rnd.randrange(-0x80000, 0x100000)]))]
-    elif k < 0.96:
+    elif k < 0.95:
         name = 'jalr'
         ops = [('r', rnd.choice([0, 1, creg(rnd)])), ('r', creg(rnd)), ('i', rnd.choice([0, 0, 0, 2, -2, 4, 2046, -2048]))]
+    elif k < 0.975:
+        # atomics: ordering bits written as integers after the registers
+        aq, rl = rnd.choice([(0, 0), (1, 0), (0, 1), (1, 1)])
+        if rnd.random() < 0.35:
+            name, ops = 'lr.w', [('r', creg(rnd)), ('r', creg(rnd)), ('k', aq), ('k', rl)]
+        else:
+            name = rnd.choice(['sc.w', 'amoswap.w', 'amoadd.w', 'amoxor.w', 'amoand.w', 'amoor.w', 'amomin.w', 'amomax.w', 'amominu.w', 'amomaxu.w'])
+            ops = [('r', creg(rnd)), ('r', creg(rnd)), ('r', creg(rnd)), ('k', aq), ('k', rl)]
     else:
         name = rnd.choice(['ecall', 'ebreak', 'fence.i'])
         ops = []
@@ -302,6 +310,14 @@ def gen_program(rnd, size=None, pseudo=True, data=True, aligns=True, transfers=T
                         body.append(Ln('    %s %s' % (pj, nm), 'pjr', pj, [v]))
                 else:
                     name, ops = gen_instr(rnd)
+                    if rnd.random() < 0.25:
+                        # instruction classes with fields after the registers (ordering bits) rebuilt by the alias pass
+                        aq, rl = rnd.choice([(1, 0), (0, 1), (1, 1), (0, 0)])
+                        if rnd.random() < 0.5:
+                            name, ops = 'lr.w', [('r', 0), ('r', creg(rnd)), ('k', aq), ('k', rl)]
+                        else:
+                            name = rnd.choice(['sc.w', 'amoswap.w', 'amoadd.w', 'amoor.w', 'amomaxu.w'])
+                            ops = [('r', 0), ('r', creg(rnd)), ('r', creg(rnd)), ('k', aq), ('k', rl)]
                     if ops and ops[0][0] == 'r':
                         ops = [('r', v)] + ops[1:]
                         txt = line_text(rnd, name, ops)
